@@ -160,6 +160,7 @@ func (r *ruler) releaseSites() {
 	}
 	var bad []string
 	nCalls, nPush := 0, 0
+	cg := r.vmCalls()
 	for fn := range ssautil.AllFunctions(p.SSA) {
 		if fn.Pkg == nil || !strings.HasPrefix(fn.Pkg.Pkg.Path(), load.ModPath) || fn.Blocks == nil {
 			continue
@@ -186,8 +187,14 @@ func (r *ruler) releaseSites() {
 				callee := cc.StaticCallee()
 				if callee == del {
 					nCalls++
-					if !within(fn, del) && !within(fn, r.m.Run) {
-						bad = append(bad, p.Pos(ins.Pos())+": "+p.FuncKey(fn)+" releases a context")
+					switch {
+					case within(fn, del) || within(fn, r.m.Run):
+					case fn.Pkg != r.m.Run.Pkg:
+						bad = append(bad, p.Pos(ins.Pos())+": "+p.FuncKey(fn)+" (outside package vm) releases a context")
+					case cg.fromReport(fn):
+						bad = append(bad, p.Pos(ins.Pos())+": "+p.FuncKey(fn)+" releases a context on the error path (the failing chain is still registered with its parents)")
+					case cg.fromOutside(fn):
+						bad = append(bad, p.Pos(ins.Pos())+": "+p.FuncKey(fn)+" releases a context and can be reached without going through the run loop")
 					}
 					continue
 				}
@@ -209,8 +216,8 @@ func (r *ruler) releaseSites() {
 	case len(bad) > 0:
 		sort.Strings(bad)
 		r.s.Bad("V23", key, strings.SplitN(bad[0], ": ", 2)[0], "a context may only be released by DCONT / RCONT (which unregister it from its parent, V8) and by deleteContext's own recursion; a release anywhere else frees a context that is still registered or is freed again by the recursion, and the free list hands it to two live iterators: "+strings.Join(bad, "; "))
-	case nCalls < 3 || nPush < 1:
-		r.s.Unk("V23", key, r.pos, fmt.Sprintf("expected the two handlers and the recursion to call deleteContext and deleteContext to push onto the free list; found %d call(s), %d push(es)", nCalls, nPush))
+	case nCalls < 2 || nPush < 1:
+		r.s.Unk("V23", key, r.pos, fmt.Sprintf("expected the run loop and the recursion to call deleteContext and deleteContext to push onto the free list; found %d call(s), %d push(es)", nCalls, nPush))
 	default:
 		r.s.OK("V23", key, r.pos, fmt.Sprintf("%d calls of deleteContext (run loop and recursion), %d push onto the free list (inside deleteContext)", nCalls, nPush))
 	}
@@ -243,6 +250,7 @@ func (r *ruler) memoryUsers() {
 	}
 	var bad []string
 	n, nw := 0, 0
+	cgm := r.vmCalls()
 	for fn := range ssautil.AllFunctions(p.SSA) {
 		if fn.Pkg == nil || !strings.HasPrefix(fn.Pkg.Pkg.Path(), load.ModPath) || fn.Blocks == nil {
 			continue
@@ -290,8 +298,8 @@ func (r *ruler) memoryUsers() {
 					bad = append(bad, p.Pos(ins.Pos())+": "+p.FuncKey(fn)+" calls memory."+callee.Name()+" from outside the VM")
 				case writers[callee.Name()]:
 					nw++
-					if !inRun {
-						bad = append(bad, p.Pos(ins.Pos())+": "+p.FuncKey(fn)+" writes a variable ("+callee.Name()+") outside the run loop")
+					if !inRun && cgm.fromOutside(fn) {
+						bad = append(bad, p.Pos(ins.Pos())+": "+p.FuncKey(fn)+" writes a variable ("+callee.Name()+") and can be reached without going through the run loop")
 					}
 				}
 			}
@@ -307,6 +315,114 @@ func (r *ruler) memoryUsers() {
 	default:
 		r.s.OK("O7", key, r.pos, fmt.Sprintf("%d calls of memory.Type methods, all in packages memory and vm; the %d calls of the variable writers are in the run loop", n, nw))
 	}
+}
+
+// vmCalls: the static call relation among the functions of the module, for
+// the who-may rules. A helper extracted from a handler of the run loop is
+// part of the run loop as long as nothing else can reach it.
+type vmCallGraph struct {
+	r       *ruler
+	callers map[*ssa.Function][]*ssa.Function
+	callees map[*ssa.Function][]*ssa.Function
+}
+
+func (r *ruler) vmCalls() *vmCallGraph {
+	g := &vmCallGraph{r: r, callers: map[*ssa.Function][]*ssa.Function{}, callees: map[*ssa.Function][]*ssa.Function{}}
+	for fn := range ssautil.AllFunctions(r.m.P.SSA) {
+		if fn.Pkg == nil || !strings.HasPrefix(fn.Pkg.Pkg.Path(), load.ModPath) || fn.Blocks == nil {
+			continue
+		}
+		outer := fn
+		for outer.Parent() != nil {
+			outer = outer.Parent()
+		}
+		for _, b := range fn.Blocks {
+			for _, ins := range b.Instrs {
+				if ci, ok := ins.(ssa.CallInstruction); ok {
+					if c := ci.Common().StaticCallee(); c != nil {
+						g.callers[c] = append(g.callers[c], outer)
+						g.callees[outer] = append(g.callees[outer], c)
+					}
+				}
+				// a function used as a value may be called by anyone
+				for _, op := range ins.Operands(nil) {
+					if f, ok := (*op).(*ssa.Function); ok && f.Parent() == nil {
+						if ci, isCall := ins.(ssa.CallInstruction); !isCall || ci.Common().Value != *op {
+							g.callers[f] = append(g.callers[f], nil)
+						}
+					}
+				}
+			}
+		}
+	}
+	return g
+}
+
+// fromOutside: can fn be reached by a chain of calls that does not start in
+// the run loop -- from another package, from an exported function or method of
+// package vm other than Run, or through a function value?
+func (g *vmCallGraph) fromOutside(fn *ssa.Function) bool {
+	run := g.r.m.Run
+	seen := map[*ssa.Function]bool{}
+	var up func(f *ssa.Function) bool
+	up = func(f *ssa.Function) bool {
+		for f.Parent() != nil {
+			f = f.Parent()
+		}
+		if f == run {
+			return false
+		}
+		if seen[f] {
+			return false
+		}
+		seen[f] = true
+		if f.Pkg != run.Pkg {
+			return true
+		}
+		if f.Object() != nil && f.Object().Exported() {
+			return true
+		}
+		cs := g.callers[f]
+		if len(cs) == 0 {
+			return true // nobody calls it statically: not provably part of the run loop
+		}
+		for _, c := range cs {
+			if c == nil || up(c) {
+				return true
+			}
+		}
+		return false
+	}
+	return up(fn)
+}
+
+// fromReport: is fn the error report or reached from it?
+func (g *vmCallGraph) fromReport(fn *ssa.Function) bool {
+	dump := g.r.m.Dump
+	if dump == nil {
+		return false
+	}
+	for fn.Parent() != nil {
+		fn = fn.Parent()
+	}
+	seen := map[*ssa.Function]bool{}
+	var down func(f *ssa.Function) bool
+	down = func(f *ssa.Function) bool {
+		if f == fn {
+			return true
+		}
+		if seen[f] {
+			return false
+		}
+		seen[f] = true
+		for _, c := range g.callees[f] {
+			if c.Pkg != nil && strings.HasPrefix(c.Pkg.Pkg.Path(), load.ModPath) && down(c) {
+				return true
+			}
+		}
+		return false
+	}
+	return down(dump)
 }
 
 func (r *ruler) okIf(rule, key string, pa *Path, ok bool, good, bad string) {
